@@ -27,6 +27,9 @@ nothing is evaluated:
                         statement `X.update({"a": u, ..})` -> `X["a"] = u; ..`
   inline_generator_loops  `for T in h(a): B` with h a generator helper -> h's statements with every `yield E` replaced by `T = E; B`
 
+  specialise_selected_name  `x = "a" if c1 else "b" if c2 else None; S(getattr(o, x))` -> `if c1: S[x:="a"] elif c2: S[x:="b"] else: S[x:=None]`;
+                        `next((E for T in <literal> if C), D)` -> the chain of conditional expressions over the rows (with unroll_static_loops)
+
   split_chain_loops     `for T in chain(A, B): S` -> the loop over A followed by the loop over B;  `for c, x in zip(repeat(K), X)` -> the
                         loop over X with c = K
 
@@ -349,17 +352,22 @@ class _StaticComps(ast.NodeTransformer):
     off the comprehension.)  One generator, no filter, plain-name targets, pure element expressions in the sequence.  (all/any yield the same truth value
     and evaluate the same operands in the same order, stopping at the same one.)"""
 
-    def __init__(self, lits):
+    def __init__(self, lits, attrs=None):
         self.lits = lits
+        self.attrs = attrs          # (receiver, attribute) -> class-level literal table (see _attr_table)
 
-    def _rows(self, comp):
+    def _rows(self, comp, ifs: bool = False):
         """[{target name: element expr}] or None"""
         if len(comp.generators) != 1:
             return None
         g = comp.generators[0]
-        if g.ifs or g.is_async:
+        if (g.ifs and not ifs) or g.is_async:
             return None
         seq = _literal_seq(g.iter) or (self.lits.get(g.iter.id) if isinstance(g.iter, ast.Name) else None)
+        if seq is None and ifs:
+            # (class-level tables only for the first-match form: a plain comprehension over one stays a comprehension, which is what the
+            # rules about such lists read)
+            seq = _attr_table(g.iter, self.attrs)
         if seq is None:
             return None
         tg = g.target
@@ -382,8 +390,8 @@ class _StaticComps(ast.NodeTransformer):
             rows.append(m)
         return rows
 
-    def _elts(self, comp, *parts):
-        rows = self._rows(comp)
+    def _elts(self, comp, *parts, ifs: bool = False):
+        rows = self._rows(comp, ifs)
         if rows is None:
             return None
         # a name bound inside the element expression (walrus / nested comprehension target) that is also a loop target: refuse
@@ -400,8 +408,27 @@ class _StaticComps(ast.NodeTransformer):
             return n
         return ast.copy_location(ast.List(elts=[e[0] for e in el], ctx=ast.Load()), n)
 
+    def _first_match(self, n):
+        """`next((E(x) for x in (a, b) if C(x)), D)`  ->  `E(a) if C(a) else (E(b) if C(b) else D)`: the first row that passes the
+        filter decides, tried in table order, D when none does -- the same tests in the same order, stopping at the same row"""
+        g = n.args[0]
+        conds = g.generators[0].ifs if len(g.generators) == 1 else []
+        if not conds:
+            return None
+        test = conds[0] if len(conds) == 1 else ast.BoolOp(op=ast.And(), values=list(conds))
+        el = self._elts(g, g.elt, test, ifs=True)
+        if not el or len(el) > 32:
+            return None
+        out = n.args[1]
+        for e, c in reversed(el):
+            out = ast.IfExp(test=c, body=e, orelse=out)
+        return ast.fix_missing_locations(ast.copy_location(out, n))
+
     def visit_Call(self, n):
         self.generic_visit(n)
+        if isinstance(n.func, ast.Name) and n.func.id == "next" and len(n.args) == 2 and not n.keywords and isinstance(n.args[0], ast.GeneratorExp) \
+                and _pure(n.args[1]):
+            return self._first_match(n) or n
         if n.keywords or len(n.args) != 1:
             return n
         a = n.args[0]
@@ -446,10 +473,10 @@ class _StaticComps(ast.NodeTransformer):
     visit_AsyncFunctionDef = visit_ClassDef = visit_FunctionDef
 
 
-def _static_comps(st, lits):
+def _static_comps(st, lits, attrs=None):
     """the expressions evaluated by statement `st` itself (not those of the statements nested in it), comprehensions over static
     sequences written out"""
-    tr = _StaticComps(lits)
+    tr = _StaticComps(lits, attrs)
     if isinstance(st, (ast.FunctionDef, ast.AsyncFunctionDef, ast.ClassDef)):
         return st
     nested = {"body", "orelse", "finalbody", "handlers"}
@@ -478,7 +505,7 @@ def _unroll_block(stmts, lits, once=frozenset(), attrs=None, static: bool = Fals
     out = []
     lits = dict(lits)
     for st in stmts:
-        st = _static_comps(st, lits)
+        st = _static_comps(st, lits, attrs)
         if isinstance(st, ast.For):
             seq, local = _iterated(st.iter, lits, attrs) or (None, None)
             if seq is None and static:
@@ -1624,6 +1651,7 @@ def namedtuple_rows(mod: ast.Module) -> ast.Module:
                     if len(given) == len(fs):
                         t = ast.copy_location(ast.Tuple(elts=[given[f] for f in fs], ctx=ast.Load()), n)
                         t._nt_fields = list(fs)
+                        t._nt_type = n.func.id
                         return t
             return n
     return ast.fix_missing_locations(Rows().visit(mod))
@@ -2006,6 +2034,81 @@ def specialise_dispatch(func):
                     block(h.body)
             i += 1
     block(func.body)
+    return func
+
+
+def specialise_selected_name(func):
+    """A method NAME picked by a chain of tests and then looked up
+
+        x = "a" if c1 else "b" if c2 else None              if c1:   S[x := "a"]
+        S   (.. getattr(obj, x) ..)                  ->     elif c2: S[x := "b"]
+                                                            else:    S[x := None]
+
+    is the if/elif chain of specialised statements it abbreviates (tail duplication, as in specialise_dispatch): the tests are
+    evaluated in the same order and before S either way.  In every copy the constant is propagated: `getattr(obj, "a")` is `obj.a`,
+    `if "a" is None:` is decided, statements after a raise / return of the arm are dropped.  Applied to an assignment at the top level
+    of the function whose leaves are all constants, to a local bound only there and used as the name of a `getattr` afterwards."""
+    def leaves(e, conds):
+        if isinstance(e, ast.IfExp):
+            return leaves(e.body, conds + [(e.test, True)]) and leaves(e.orelse, conds + [(e.test, False)])
+        return isinstance(e, ast.Constant)
+
+    local_defs = {n.name for n in func.body if isinstance(n, ast.FunctionDef)}
+    rebound = {n.id for n in ast.walk(func) if isinstance(n, ast.Name) and isinstance(n.ctx, (ast.Store, ast.Del))}
+
+    def leaf(e):
+        # a constant, or the name of a function defined (once) in this function's body: `law = twobody if .. else None; law()`
+        return isinstance(e, ast.Constant) or (isinstance(e, ast.Name) and e.id in local_defs and e.id not in rebound)
+
+    def arms(e):
+        out = []
+        while isinstance(e, ast.IfExp) and leaf(e.body):
+            out.append((e.test, e.body))
+            e = e.orelse
+        return (out, e) if leaf(e) and out else (None, None)
+
+    class _DefIsNone(ast.NodeTransformer):
+        """`<name of a local def> is None` is False"""
+        def visit_Compare(self, n):
+            self.generic_visit(n)
+            if len(n.ops) == 1 and isinstance(n.ops[0], (ast.Is, ast.IsNot)) and isinstance(n.left, ast.Name) and n.left.id in local_defs and n.left.id not in rebound \
+                    and isinstance(n.comparators[0], ast.Constant) and n.comparators[0].value is None:
+                return ast.copy_location(ast.Constant(value=isinstance(n.ops[0], ast.IsNot)), n)
+            return n
+    body = func.body
+    for i, st in enumerate(body):
+        if not (isinstance(st, ast.Assign) and len(st.targets) == 1 and isinstance(st.targets[0], ast.Name) and isinstance(st.value, ast.IfExp)):
+            continue
+        x = st.targets[0].id
+        chain, default = arms(st.value)
+        if chain is None or len(chain) > 24 or not all(_pure(t) for t, _ in chain):
+            continue
+        rest = body[i + 1:]
+        if not rest or len(rest) > 12:
+            continue
+        stores = [n for n in ast.walk(func) if isinstance(n, ast.Name) and n.id == x and isinstance(n.ctx, (ast.Store, ast.Del))]
+        before = [n for b in body[:i] for n in ast.walk(b) if isinstance(n, ast.Name) and n.id == x]
+        as_name = [c for r in rest for c in ast.walk(r) if isinstance(c, ast.Call) and isinstance(c.func, ast.Name) and c.func.id == "getattr" and len(c.args) == 2
+                   and not c.keywords and isinstance(c.args[1], ast.Name) and c.args[1].id == x]
+        # ... or the selected local function is called: `law()`
+        as_name += [c for r in rest for c in ast.walk(r) if isinstance(c, ast.Call) and isinstance(c.func, ast.Name) and c.func.id == x
+                    and any(isinstance(v, ast.Name) for _, v in chain)]
+        if len(stores) != 1 or before or not as_name or any(isinstance(n, (ast.FunctionDef, ast.ClassDef, ast.Lambda, ast.Global, ast.Nonlocal)) for r in rest for n in ast.walk(r)):
+            continue
+        # (the tests read nothing the statements could have changed in between: they all precede S in both forms)
+
+        def copy_for(const):
+            out = [_Subst({x: const}).visit(copy.deepcopy(r)) for r in rest]
+            out = [_Fold().visit(_DefIsNone().visit(r)) for r in out]
+            out = _prune_const_ifs(out)
+            cut = next((k for k, r in enumerate(out) if isinstance(r, (ast.Raise, ast.Return))), None)
+            return (out[:cut + 1] if cut is not None else out) or [ast.Pass()]
+        node = None
+        for test, const in reversed(chain):
+            node = ast.If(test=copy.deepcopy(test), body=copy_for(const), orelse=[node] if node is not None else copy_for(default))
+        func.body = body[:i] + [ast.copy_location(node, st)]
+        ast.fix_missing_locations(func)
+        return specialise_selected_name(func)
     return func
 
 
@@ -3694,6 +3797,7 @@ def normalize_function(func, tables: dict | None = None, ctables: dict | None = 
         index_loops_to_enumerate(func)
         before = len(list(ast.walk(func)))
         unroll_static_loops(func, tables, ctables, cname)
+        specialise_selected_name(func)      # after unrolling: `next(name for key, name in TABLE if ..)` has become the chain of tests
         const_getattr(func)          # after unrolling: the name may come from a row of the unrolled table
         if len(list(ast.walk(func))) != before:
             # unrolling a table of closures / helper references turns them into direct calls: a second round inlines those
@@ -3950,6 +4054,9 @@ class _Fold(ast.NodeTransformer):
                 and (type(l.value) is type(r.value) or isinstance(l.value, str) != isinstance(r.value, str)):
             eq = _same_const(l.value, r.value)
             return ast.copy_location(ast.Constant(value=eq if isinstance(op, ast.Eq) else not eq), n)
+        if isinstance(l, ast.Constant) and isinstance(r, ast.Constant) and isinstance(op, (ast.Is, ast.IsNot)) and (l.value is None or r.value is None):
+            same = l.value is None and r.value is None          # (identity with None is decided by the values)
+            return ast.copy_location(ast.Constant(value=same if isinstance(op, ast.Is) else not same), n)
         if isinstance(l, ast.Constant) and isinstance(op, (ast.In, ast.NotIn)):
             ks = _const_keys(r)
             if ks is not None and (isinstance(l.value, str) or l.value is None or all(type(k) is type(l.value) for k in ks)):
